@@ -43,7 +43,10 @@ def evaluate(ctx, name, evs, outs, shard=4):
     okc, res, lg = vlib.run_coq_cases(name, HEADER, terms, "hcase", defs, shard=shard)
     if not okc:
         raise RuntimeError("coq evaluation failed: " + lg[-3000:])
-    return res.get("MM", []), res["SM"]
+    # dumps_ok judges the dumps it is shown and does not look at the events: a history whose
+    # observations are missing (the driver died, a dump was not delivered) must not pass for that reason
+    short = [i for i, (e, o) in enumerate(zip(evs, outs)) if len(o) != len(e)]
+    return res.get("MM", []), sorted(set(res["SM"]) | set(short))
 
 
 def run(ctx):
